@@ -235,8 +235,27 @@ class Prop(object):
         return r
 
 
+def _start_heartbeat():
+    hb = os.environ.get("VERIF_HEARTBEAT")
+    if not hb:
+        return None
+    import threading
+
+    def beat():
+        while True:
+            try:
+                os.utime(hb, None)
+            except OSError:
+                pass
+            time.sleep(5)
+    t = threading.Thread(target=beat, daemon=True)
+    t.start()
+    return hb + ".scn"
+
+
 def run_check(prop_cls, tier, seed, replay=None):
     t0 = time.time()
+    cur_file = _start_heartbeat()
     prop = prop_cls(tier, seed)
     shutil.rmtree(prop.wd, ignore_errors=True)
     os.makedirs(prop.wd)
@@ -261,9 +280,15 @@ def run_check(prop_cls, tier, seed, replay=None):
     else:
         scn_iter = prop.scenarios()
     t1 = time.time()
+    cur_f = open(cur_file, "w") if cur_file else None
     for scn in scn_iter:
         n_scn += 1
         sid = tw.new_scn(scn)
+        if cur_f is not None and (n_scn % 50 == 1 or getattr(prop, "slow_scenarios", False)):
+            cur_f.seek(0)
+            cur_f.truncate()
+            json.dump(scn, cur_f, default=str)
+            cur_f.flush()
         for be in bes:
             if scn.get("pkg") and scn["pkg"] != be.name:
                 continue
